@@ -6,7 +6,7 @@ from harness.pcommon import part_unit, pack_unit
 ID = "C15"
 RULE = ("histories: random sequences of 12..40 calls in ONE interpreter, drawn with repetition from a pool of calls covering every partitioning, packing and covering "
         "algorithm x input formats (list, numpy array, dict with string / integer keys, names + value function) x output types, complete greedy with random switches, "
-        "and FAILING calls (oversize item, cbldm with three bins / negative item, rnp with 6 bins); each call of the pool is also run alone in a fresh interpreter. "
+        "families of related calls (same items with another bin size / number of bins / objective / switch vector / cardinality bound, same parameter with reordered items or another format) inserted back to back, and FAILING calls (oversize item, cbldm with three bins / negative item, rnp with 6 bins); each call of the pool is also run alone in a fresh interpreter. "
         "After every call of a history every argument object handed to prtpy (list, array, dict, the dict behind the value function) is deep-compared with a snapshot. "
         "Non-trivial history: >= 12 calls, >= 5 distinct algorithms, >= 1 failing call, >= 1 repeated call. Distinct by (port, params).")
 EXPLANATION = ("what a Gallina model can carry: every model algorithm is a function of its arguments (determinism and independence of earlier calls hold by construction), "
@@ -62,7 +62,74 @@ def build_pool(rng, tier):
             else:
                 p["k"] = rng.choice([2, 3])
             pool.append({"port": "algo_direct", "args": p})
+    # families of RELATED calls: the same items with a different parameter (bin size, number of bins, objective, switches, bound),
+    # the same parameter with reordered items, the same values under another format - the shapes on which a cache with an
+    # incomplete key, a memo that outlives the call or a default argument that is mutated give a wrong answer
+    fams = []
+    for _ in range(6 if tier == "quick" else 40):
+        for a in ["bc", "bc", "ffd", "bfd", "cover_34"]:
+            C0 = rng.choice([12, 20, 21, 30, 32])
+            lo, hi = max(1, C0 // 5), max(2, (2 * C0) // 3)
+            vals = [rng.randint(lo, hi) for _ in range(rng.randint(4, 7))]
+            fam = []
+            for C in sorted(set([max(vals) + rng.randint(0, 3), max(vals) + rng.randint(4, 12), C0 + max(vals)])):
+                for fmt in rng.sample(["list", "dict_str", "array"], 2):
+                    fam.append({"port": "pack", "args": pack_unit(a, C, vals, rng, fmt=fmt, out=rng.choice(["pst", "sums", "bincount"]))["params"]})
+            v2 = list(vals)
+            rng.shuffle(v2)
+            fam.append({"port": "pack", "args": pack_unit(a, fam[0]["args"]["C"], v2, rng, fmt="list")["params"]})
+            fams.append(fam)
+        for a in ["greedy", "kk", "ckk", "snp", "cg", "dp", "cbldm", "multifit"]:
+            vals, _f = gen.values(rng, nmax=7, vmax=1000)
+            if a == "dp":
+                vals = [min(v, 40) for v in vals[:6]]
+            fam = []
+            for k in ([2] if a == "cbldm" else [2, 3, 4]):
+                kws = [{}]
+                if a == "cg":
+                    kws = [{"objective": o, "flags": [rng.randint(0, 1) for _ in range(4)]} for o in ([0, 0], [1, 0], [2, 0])]
+                if a == "dp":
+                    kws = [{"objective": o} for o in ([0, 0], [1, 0], [2, 0])]
+                if a == "cbldm":
+                    kws = [{}, {"partition_difference": 1}, {"partition_difference": 2}]
+                for kw in kws:
+                    fam.append({"port": "partition", "args": part_unit(a, k, vals, rng, fmt=rng.choice(["list", "dict_str"]), out="pst", **kw)["params"]})
+            fams.append(fam)
+    # bin completion only searches when best-fit-decreasing misses the volume bound: families whose capacities are all of that kind
+    # (screened with the model), so that consecutive searches on the same items really happen
+    tries = []
+    for _ in range(60 if tier == "quick" else 400):
+        vals = [rng.randint(4, 20) for _ in range(rng.randint(4, 6))]
+        tries.append(vals)
+    lines = []
+    for vals in tries:
+        for C in range(max(vals), max(vals) + 16):
+            lines.append(runner.model_line("bfd", [0, C, vals, vals]))
+    res = runner.run_model(lines)
+    j = 0
+    nsearch = 0
+    for vals in tries:
+        caps = []
+        for C in range(max(vals), max(vals) + 16):
+            r = res[j]
+            j += 1
+            if isinstance(r, dict) and "ok" in r and len(r["ok"]) > -(-sum(vals) // C):
+                caps.append(C)
+        if len(caps) >= 2 and nsearch < (12 if tier == "quick" else 80):
+            nsearch += 1
+            fam = [{"port": "pack", "args": pack_unit("bc", C, vals, rng, fmt=rng.choice(["list", "dict_str"]), out=rng.choice(["pst", "sums"]))["params"]} for C in rng.sample(caps, min(4, len(caps)))]
+            fams.append(fam)
+            fams.append(fam)      # twice: these families are picked more often
+    FAMILIES[:] = fams
+    seen = set()
+    for fam in fams:
+        if id(fam) not in seen:
+            seen.add(id(fam))
+            pool.extend(fam)
     return pool
+
+
+FAMILIES = []
 
 
 def units(rng, tier):
@@ -70,9 +137,16 @@ def units(rng, tier):
     POOL.extend(build_pool(rng, tier))
     STATS["pool_calls"] = len(POOL)
     us = []
-    for _ in range(24 if tier == "quick" else 250):
+    for _ in range(40 if tier == "quick" else 300):
         n = rng.randint(12, 40)
         idx = [rng.randrange(len(POOL)) for _ in range(n)]
+        # bursts of related calls (same items, another parameter / order / format) back to back, in random order
+        for _b in range(rng.randint(1, 3)):
+            fam = rng.choice(FAMILIES)
+            burst = [POOL.index(c) for c in rng.sample(fam, min(len(fam), rng.randint(2, 5)))]
+            at = rng.randrange(n)
+            idx[at:at] = burst
+        n = len(idx)
         # make sure something repeats and something fails
         idx[rng.randrange(n)] = idx[0]
         fails = [i for i, c in enumerate(POOL) if c.get("fails")]
